@@ -438,6 +438,30 @@ def gen_inputs(tier, B):
             items.append(("mtblocks:block%d-unusable-chain" % bi, "xz", mb[:pos] + bytes(hdr) + mb[pos + hs:], "full"))
         pos += hs + ((csize + 3) & ~3) + 4
         bi += 1
+    # compressed files whose size is an exact multiple of the tools' 8 KiB read buffer (and one byte either side for .lzma):
+    # the end of the file coincides with the end of a full read
+    def lcg(n, seed=1):
+        out = bytearray(n); x = seed
+        for i in range(n):
+            x = (x * 1103515245 + 12345) & 0x7FFFFFFF
+            out[i] = (x >> 16) & 0xFF
+        return bytes(out)
+    rnd = lcg(3 * 8192 + 512)
+    for fmt, ext, targets in (("lzma", "lzma", (8191, 8192, 8193, 16384)), ("xz", "xz", (8192, 16384)), ("lzip", "lz", (8192,))):
+        for tgt in targets:
+            n, found = tgt - 40, None
+            for _ in range(80):
+                rc, blob, err = prun([B["xz"], "--format=" + fmt, "-0", "-c"] + (["--check=crc32"] if fmt == "xz" else []), stdin=_tmpfile(rnd[:n]))
+                if rc != 0:
+                    break
+                if len(blob) == tgt:
+                    found = blob; break
+                n += tgt - len(blob) if abs(tgt - len(blob)) > 1 else (1 if len(blob) < tgt else -1)
+                if n <= 0 or n > len(rnd):
+                    break
+            if found is not None:
+                items.append(("sized-%s-%d" % (fmt, tgt), ext, found, "full"))
+                items.append(("sized-%s-%d+junk" % (fmt, tgt), ext, found + b"\x55", "full"))
     # truncations and single-byte corruptions
     for n, e, b in seeds:
         ln = len(b)
@@ -849,6 +873,69 @@ def rt_task(arg):
 
 # ---------------------------------------------------------------------------------------------------
 
+MULTI_MEMBERS = ["good-1-check-crc32.xz", "good-0-empty.xz", "unsupported-check.xz", "bad-1-check-crc32.xz", "good-known_size-with_eopm.lzma",
+                 "good-unknown_size-with_eopm.lzma", "good-1-v1.lz", "good-1-v0.lz", "good-1-v1-trailing-1.lz"]
+
+
+def multi_items():
+    """Files for the several-operands part: seeds plus variants with one foreign byte appended (only .lz tolerates that)."""
+    byname = {n: (e, b) for n, e, b in seed_files()}
+    fs = [(m, byname[m][0], byname[m][1]) for m in MULTI_MEMBERS if m in byname]
+    for m in ("good-1-check-crc32.xz", "good-known_size-with_eopm.lzma", "good-unknown_size-with_eopm.lzma", "good-1-v1.lz"):
+        if m in byname:
+            fs.append((m + "+junk", byname[m][0], byname[m][1] + b"\x55\xAA"))
+    return fs
+
+
+def multi_task(arg):
+    """xz with several file operands: bytes on stdout = concatenation of what each operand gives alone, exit status = the worst
+    of the single runs (1 over 2 over 0, xz(1) EXIT STATUS). The single-operand behaviour itself is what the 'files' part
+    compares with the library, so this part only needs the tool as its own reference: no state may leak between operands."""
+    B, root, deadline, tier, firsts = arg
+    acc = Acc()
+    wd = tempfile.mkdtemp(prefix="m-", dir=root)
+    try:
+        fs = multi_items(); paths = {}
+        for i, (n, e, b) in enumerate(fs):
+            paths[n] = os.path.join(wd, "f%02d.%s" % (i, e))
+            with open(paths[n], "wb") as f:
+                f.write(b)
+        modes = [["-dc"], ["-t"], ["-dc", "-T2"]] + ([["-dcq"], ["-t", "-T4"]] if tier == "thorough" else [])
+        single = {}
+        for n, e, b in fs:
+            for mo in modes:
+                single[(n, tuple(mo))] = prun([B["xz"]] + mo + [paths[n]])
+        def worst(rcs):
+            return 1 if 1 in rcs else 2 if 2 in rcs else 0
+        for a in firsts:
+            tuples = [(a, b) for b, _, _ in fs] + ([(a, b, a) for b, _, _ in fs] if tier == "thorough" else [(a, fs[(hash(a) + 3) % len(fs)][0], a)])
+            for tp in tuples:
+                if time.time() > deadline:
+                    acc.incomplete = True
+                    return acc.dump()
+                for mo in modes:
+                    rc, out, err = prun([B["xz"]] + mo + [paths[x] for x in tp])
+                    acc.evals += 1
+                    exp_out = b"".join(single[(x, tuple(mo))][1] for x in tp); exp_rc = worst([single[(x, tuple(mo))][0] for x in tp])
+                    acc.distinct.add("multi:" + "|".join(tp) + " ".join(mo))
+                    acc.obs.add("multi %s rc=%s" % (" ".join(mo), exp_rc))
+                    bad = None
+                    if rc is None:
+                        bad = ("hang", "no exit")
+                    elif rc != exp_rc:
+                        bad = ("exit-status", "exit status %d, the operands alone give %s -> expected %d (%s)" % (rc, [single[(x, tuple(mo))][0] for x in tp], exp_rc, emsg(err)))
+                    elif out != exp_out:
+                        bad = ("stdout", "stdout differs from the concatenation of the single runs: " + describe_diff(out, exp_out))
+                    if bad:
+                        acc.fails.append(("multi:%s:%s" % (bad[0], "mt" if any("T" in m for m in mo) else "st"),
+                                          "xz %s %s: %s" % (" ".join(mo), " ".join(tp), bad[1]), json.dumps({"part": "multi", "operands": list(tp), "mode": mo})))
+        if len(acc.samples) < 2 and firsts:
+            acc.samples.append("multi: xz {-dc,-t,-dc -T2} %s <every second operand>: stdout and exit status equal to the single runs combined" % firsts[0])
+    finally:
+        shutil.rmtree(wd, ignore_errors=True)
+    return acc.dump()
+
+
 def chunks(lst, n):
     return [lst[i:i + n] for i in range(0, len(lst), n)]
 
@@ -887,6 +974,7 @@ def run(tier):
                            "inputs_full_matrix": sum(1 for i in inputs if i[3] == "full")}
         ck.sub["sparse"] = {"layouts_enumerated": nlay, "distinct_plaintexts": len(layouts), "sinks": len(SINKS)}
         ck.sub["rt"] = {"option_vectors": len(grid), "plaintexts": len(plains)}
+        ck.sub["multi"] = {"operand_files": len(multi_items())}
         nheavy = 4
         with concurrent.futures.ProcessPoolExecutor(max(1, vlib.NCPU - (nheavy if rt_heavy else 0))) as pool, \
                 concurrent.futures.ProcessPoolExecutor(nheavy) as hpool:
@@ -897,6 +985,8 @@ def run(tier):
                 futs.append(("sparse", pool.submit(sparse_task, (B, root, deadline, tier, ch))))
             for ch in chunks(rt_light, 12):
                 futs.append(("rt", pool.submit(rt_task, (B, root, deadline, ch))))
+            for ch in chunks([m[0] for m in multi_items()], 2):
+                futs.append(("multi", pool.submit(multi_task, (B, root, deadline, tier, ch))))
             for ch in chunks([(n, e, b.hex(), lv) for n, e, b, lv in inputs], 12):
                 futs.append(("files", pool.submit(files_task, (B, root, deadline, ch))))
             for label, f in futs:
@@ -929,7 +1019,8 @@ def run(tier):
         rule="files: every tests/files/*.{xz,lzma,lz}, every listed concatenation/raw input with the full tool matrix and every "
              "listed truncation / single-byte corruption with the reduced matrix, duplicates removed; sparse: every distinct plaintext "
              "of the (data|zeros)^3 x boundary grid through every sink (and 5 failing variants of its compressed form through the "
-             "sinks where partial output survives); rt: every option vector x 6 plaintexts. evaluations = tool runs compared with the "
+             "sinks where partial output survives); multi: every ordered pair (thorough: and every a,b,a triple) of the operand files x "
+             "{-dc, -t, -dc -T2}; rt: every option vector x 6 plaintexts. evaluations = tool runs compared with the "
              "oracle; distinct = distinct (input digest, tool case) pairs with an input some decoder recognises + distinct "
              "(plaintext, input variant, sink, threads) + distinct (plaintext, option vector)")
 
@@ -967,6 +1058,15 @@ def replay(path):
             plains = dict(rt_plaintexts())
             print("round trip %s: xz %s | xz %s -dc" % (rp["plain"], " ".join(rp["copts"]), " ".join(rp["dopts"])))
             bad = rt_one(B, root, rp["plain"], plains[rp["plain"]], rp["copts"], rp["dopts"])
+        elif part == "multi":
+            fs = {n: (e, b) for n, e, b in multi_items()}; paths = []
+            for i, n in enumerate(rp["operands"]):
+                pth = os.path.join(root, "f%02d.%s" % (i, fs[n][0])); open(pth, "wb").write(fs[n][1]); paths.append(pth)
+            alone = [prun([B["xz"]] + rp["mode"] + [pth]) for pth in paths]
+            rc, out, err = prun([B["xz"]] + rp["mode"] + paths)
+            rcs = [a[0] for a in alone]; exp_rc = 1 if 1 in rcs else 2 if 2 in rcs else 0
+            print("xz %s %s: exit %s (single runs %s), stdout %d bytes (single runs together %d)" % (" ".join(rp["mode"]), " ".join(rp["operands"]), rc, rcs, len(out), sum(len(a[1]) for a in alone)))
+            bad = ("multi", "differs from the single runs") if rc != exp_rc or out != b"".join(a[1] for a in alone) else None
         else:
             print("no replay recipe in", path)
             return 2
